@@ -35,7 +35,7 @@
 (*        record itself is, "insec" nothing is; tlsaC is the outcome of   *)
 (*        the lookup under the canonical name.  EffTLSA is the discovery  *)
 (*        rule of RFC 7672 section 2.2.2.                                  *)
-(* msg  = [reqtls, tlsno, quar, mailfail, qlate, na : BOOLEAN]            *)
+(* msg  = [reqtls, tlsno, quar, mailfail, qlate, na, pre : BOOLEAN]       *)
 (* conn = [mx : index, tls : "none"|"enc-unauth"|"enc-auth", cert]        *)
 (*        "enc-auth": handshake completed on a certificate that is valid  *)
 (*        for the MX name under the trusted CA (PKIX).                    *)
@@ -46,7 +46,10 @@ EXTENDS Naturals, Sequences, FiniteSets
 (* healthy; qlate: the quarantine flag is raised between AddRcpt and the body call   *)
 (* (a body-stage check of the pipeline); na: the body is handed over through         *)
 (* PartialDelivery.BodyNonAtomic instead of Body                                      *)
-NoMsg == [reqtls |-> FALSE, tlsno |-> FALSE, quar |-> FALSE, mailfail |-> FALSE, qlate |-> FALSE, na |-> FALSE]
+(* pre: the message has an earlier recipient in ANOTHER domain whose MX is fully      *)
+(* authenticated but does not offer the REQUIRETLS extension (relaxed_requiretls)     *)
+NoMsg == [reqtls |-> FALSE, tlsno |-> FALSE, quar |-> FALSE, mailfail |-> FALSE, qlate |-> FALSE, na |-> FALSE,
+          pre |-> FALSE]
 
 (* policies in force for a message: void only under TLS-Required: No with *)
 (* the override enabled                                                    *)
